@@ -30,7 +30,7 @@ RULE = ('every command taking a mailbox argument (CREATE DELETE RENAME(both) SEL
 
 NAMES = gen.HOSTILE_NAMES + ['..', '../bob', '../bob/x', '../../etc', 'a/../../bob', 'a/../..', './x', 'x/.', 'x/..', '/etc/passwd', '//', 'a/b/../../../bob',
                              '..\\bob', '.bob', '..bob', 'a/./../b', '\x00', 'a\x00/../bob', '../pymap-etc-passwd', 'a/' * 30 + 'b', '.' * 3, 'INBOX/..', 'INBOX/../../bob',
-                             'inbox/../x', '~', '~root', '$HOME', 'a\\..\\b', '..%2f', '%2e%2e/x']
+                             'inbox/../x', 'INBOX/', 'inbox/', 'INBOX//', 'INBOX/.', '/INBOX', 'INBOX\x00', 'a/INBOX/', '~', '~root', '$HOME', 'a\\..\\b', '..%2f', '%2e%2e/x']
 MUTATING = {'rename', 'replace', 'remove', 'unlink', 'rmdir', 'mkdir', 'makedirs', 'removedirs', 'rmtree', 'link', 'symlink', 'utime', 'chmod', 'truncate', 'open-w', 'move', 'copy'}
 
 
